@@ -55,7 +55,7 @@ def run(chk):
                 "abort or wrong acceptance is a violation. Non-trivial = a call that was rejected or that followed a rejection; distinct = "
                 "distinct lines.")
     libs = _compose.load(_compose.KERNEL_LIBS, chk)
-    _compose.obligations(chk, "C10", libs, own_mods=["PrimitivModel.Props.C10"], own_drivers=_graph.DRIVERS + ["shape", "shapespec"])
+    _compose.obligations(chk, "C10", libs, own_mods=["PrimitivModel.Props.C10"], own_drivers=_graph.DRIVERS + ["shape", "shapespec", "funcs"])
     _graph.run_family(chk, {"C10"}, tier="quick")
     retry_probe(chk, 25 if chk.tier == "quick" else 400)
     for lib in libs:
@@ -69,11 +69,18 @@ def run(chk):
     _state.run_param_batch(chk)
     from props import C16 as _c16
     _c16.run_rejected_adds(chk, 150 if chk.tier == "quick" else 4000)   # rejected Model::add calls leave nothing behind
+    from props import C20 as _c20
+    _c20.run_eq_leg(chk, lambda name: "Optimizer" in name or "Model" in name)   # rejected C API calls leave optimizers / models unchanged
     from props import C09 as _c09
     _c09.run_batch_rules(chk, extra_random=2500 if chk.tier == "quick" else 40000)   # values near 2^32 must raise, not wrap
     for f in _compose.load(["_funcs"], chk):
         if hasattr(f, "run_malformed"):
             f.run_malformed(chk)
+        if hasattr(f, "degenerate_list_program"):
+            # an inadmissible call is rejected by EVERY form of the function (Node / Tensor, one-element lists included)
+            progs = [f.degenerate_list_program(chk.rng) for _ in range(2 if chk.tier == "quick" else 30)]
+            found, dis = f.run_programs(chk, progs)
+            f.report_found(chk, found, dis, prop="C10", keyprefix="funcs")
     _compose.finish(chk)
     chk.trusted += ["the tensor, codec and C-API rejection paths are decided by C07, C14 and C20 respectively (the registry's by C16; here its rejected adds are replayed on the implementation against the dictionary specification of props/C16.py, without the Lean model); this check covers Shape/Device/functions/Graph entry points and allocation-failure atomicity of forward evaluation",
                     "allocation failure is injected twice: at operator granularity in the graph family (model-checked against the Lean model), and at the k-th device allocation for every k inside real function programs (h_grad alloc mode, implementation-side oracle)"]
